@@ -78,6 +78,7 @@ def narrowing_casts(body):
 
 
 import re as _re
+import re
 
 PANIC_CALLS = _re.compile(r'ops::Index>::index$|ops::IndexMut>::index_mut$|Option::unwrap$|Option::expect$|Result::unwrap$|Result::expect$|'
                           r'panicking::|slice::index::|str::slice_error|Result::unwrap_err$|Option::unwrap_unchecked$|RefCell.*::borrow')
@@ -227,7 +228,7 @@ def range_bounds(t):
 def byte_boundary_tests(body, xpat):
     """guards of `body` that split on "x fits in a byte" for a value matching `xpat`: `x < 256` / `x <= 255` / `x >= 256` / `x > 255`
     (either operand order) or a match on `u8::try_from(x)`. Returns [(guard, sign)] with sign +1 when the guarded edge means "fits"."""
-    from analysis.sym import edge_guards, guard_variants
+    from analysis.sym import edge_guards, guard_variants, success_of
     from analysis.pat import match as _match, Const as _Const
     out = []
     u8try = [t for t in body.calls(r'try_from$') if body.local_ty(t.dest.local).startswith('std::result::Result<u8,')]
@@ -240,11 +241,13 @@ def byte_boundary_tests(body, xpat):
                     out.append((g, sign if pol else -sign))
             continue
         r = guard_variants(body, g)
-        if r is not None and r[1] in ({'Ok'}, {'Err'}):
-            v = _nosite(r[0])
+        so = success_of(r[0], r[1]) if r is not None else None
+        if so is not None:
+            # `match u8::try_from(x)`, `u8::try_from(x).ok()?`, `if let Ok(b) = ..`: the variant fact normalised through the renaming wrappers
+            v = so[0]
             if v[0] == 'call' and v[1].endswith('try_from') and v[2] and _match(_core(v[2][0]), xpat) and \
                     any(_nosite(_sym(body, t.dest)) == v for t in u8try):
-                out.append((g, 1 if r[1] == {'Ok'} else -1))
+                out.append((g, 1 if so[1] else -1))
     return out
 
 
@@ -527,7 +530,62 @@ def emptiness_at(body, bb, is_coll):
                         res = False
                     elif set(r[1]) == {'None'}:
                         res = True
+    if res is None:
+        res = _emptiness_by_construction(body, bb, is_coll)
     return res
+
+
+def _emptiness_by_construction(body, bb, is_coll):
+    """the same question answered from how the collection is built instead of from a test: a named vector that starts as a literal
+    with at least one element (`vec![first]`), or that had an element pushed on every path to bb, and that is never shrunk, is
+    non-empty at bb; a vector whose only definition cannot reach bb does not exist there yet (no element has been collected)"""
+    from analysis.sym import defs_of
+    from analysis.seq import APPEND, MUTATE, EMPTY, _vec_macro_elems
+    from analysis import cfg as _cfg
+    from analysis.sym import symbolizer, simplify, peel as _peel
+    for v in body.vars:
+        if 'pl' not in v or v['pl']['p'] or not v.get('name'):
+            continue
+        l = v['pl']['l']
+        if not is_coll(('var', v['name'], l)):
+            continue
+        whole, partial = defs_of(body, l)
+        if len(whole) != 1 or partial:
+            return None
+        d = whole[0]
+        if d.bb != bb and bb not in _cfg.reach(body, d.bb):
+            return True
+        if not _cfg.dominates(body, d.bb, bb):
+            return None
+        shrinks, grows = [], []
+        for t in body.terms('call'):
+            if not t.args or t.bb not in body.reachable:
+                continue
+            r = _core(_sym(body, t.args[0]))
+            if not (r[0] == 'var' and len(r) > 2 and r[2] == l):
+                continue
+            n = t.callee_res() or ''
+            if re.search(r'::(clear|truncate|pop|remove|swap_remove|retain|dedup\w*|drain|split_off|set_len|pop_front|pop_back)$', n):
+                shrinks.append(t)
+            elif re.search(r'(Vec|VecDeque)::(push|push_back|push_front|insert)$', n):
+                grows.append(t)
+        if shrinks:
+            return None
+        # moved out and rebuilt (`mem::take(&mut items)`) would show up as a partial def or a call taking &mut: be conservative
+        for t in body.terms('call'):
+            if re.search(r'mem::(take|replace|swap)$', t.callee_res() or '') and any(
+                    (lambda r: r[0] == 'var' and len(r) > 2 and r[2] == l)(_core(_sym(body, a))) for a in t.args):
+                return None
+        z = symbolizer(body)
+        init = simplify(z.rvalue(d.rv, 0, (l,)) if hasattr(d, 'rv') else z.call(d, 0, (l,)))
+        if d.span.get('mac') == 'vec' or 'vec' in (d.span.get('macs') or ''):
+            el = _vec_macro_elems(body, init)
+            if el:
+                return False
+        if any(_cfg.dominates(body, t.bb, bb) and t.bb != bb for t in grows):
+            return False
+        return None
+    return None
 
 
 def debug_only_blocks(body):
@@ -607,3 +665,26 @@ def full_traversal(ctx, body, src_pat, key, what):
                         'silently dropped' % (what, body.blocks[u].term.span['line']), body.blocks[u].term.span)
         ctx.ok(body, '%s: loop at line %d visits every element' % (what, body.blocks[lp.header].term.span['line']), body.blocks[lp.header].term.span)
     return n
+
+
+def field_writes(body):
+    """every write to a place with a projection (field, index, deref): [(site, target tree, value tree)] -- assignment statements and the
+    std calls that assign through a mutable reference: mem::replace(&mut p, v) (p := v), mem::swap, mem::take(&mut p) (p := default)"""
+    z = _symz(body)
+    out = []
+    for s_ in body.stmts():
+        if s_.kind == 'assign' and s_.lhs.proj:
+            try:
+                out.append((s_, _sym(body, s_.lhs), _simp(z.rvalue(s_.rv, 0, ()))))
+            except Exception:
+                pass
+    for t in body.terms('call'):
+        n = t.callee_res() or ''
+        if _re.search(r'mem::replace$', n) and len(t.args) == 2:
+            out.append((t, _sym(body, t.args[0]), _sym(body, t.args[1])))
+        elif _re.search(r'mem::take$', n) and len(t.args) == 1:
+            out.append((t, _sym(body, t.args[0]), ('default',)))
+        elif _re.search(r'mem::swap$', n) and len(t.args) == 2:
+            out.append((t, _sym(body, t.args[0]), _sym(body, t.args[1])))
+            out.append((t, _sym(body, t.args[1]), _sym(body, t.args[0])))
+    return out
